@@ -9,11 +9,19 @@ package execext
 // not touch Task's in-memory data.
 // Commands always run with errexit ("e" is appended to whatever set: options were given), so a failing
 // statement inside a multi-line command fails the command.
+//@ ghost var interpErr error scratch
 //@ func RunCommand
+//@   init interpErr := nil
 //@   blocks
 //@   loop 1 invariant len(opts.PosixOpts) >= 1 && opts.PosixOpts[len(opts.PosixOpts) - 1] == "e"   [C03]
 //@   modifies heap
 //@   preserves $RUNDATA
+// The outcome of the interpreter IS the outcome of the command: the user's command is what is run last, and
+// whatever the interpreter reports for it - an exit status, a cancelled or expired context - is handed to the
+// caller unchanged (a command that was killed part-way is a failed command; nil means it ran to completion)
+//@   site (*Runner).Run#0 ghost interpErr := result
+//@   ensures result == nil ==> interpErr == nil                                                       [C03,C04,C13]
+//@   ensures interpErr != nil ==> result == interpErr                                                 [C03,C04]
 
 // ---- C16: expanding a task dir or include location never indexes an empty word list -----------------------
 //@ func ExpandLiteral
